@@ -239,7 +239,12 @@ func c18Templates(r *core.Rand) (map[string]string, bool) {
 	srcs := map[string]string{"inc": "{% set got = got|default([])|merge([1]) %}{% set xs = [] %}{% for i in got %}{% set i = 0 %}{% endfor %}{{ got|sort|reverse|join }}{{ passed|sort|join }}",
 		"lib": "{% macro mut(a, b) %}{% set a = a|merge([7])|sort %}{% set b = b|reverse %}{{ a|join }}{{ b|join }}{% endmacro %}"}
 	var t string
-	switch r.Intn(16) {
+	switch r.Intn(17) {
+	case 16:
+		// names bound by import / from / macro parameters / loops that are also keys of the caller's context
+		top := strings.SplitN(v, ".", 2)[0]
+		top = strings.SplitN(top, "[", 2)[0]
+		t = "{% import 'lib' as " + top + " %}{% from 'lib' import mut as m2 %}{{ m2(xs, ss) }}{% import 'lib' as m %}{{ m.mut(ys, ss) }}{% for tm in [1] %}{% set st = tm %}{% endfor %}{% macro mm(xs, m) %}{% set xs = [] %}{% endmacro %}{{ mm(1, 2) }}"
 	case 0, 1, 2, 3:
 		t = "{{ " + v + "|" + f1 + " }}"
 	case 4, 5, 6:
@@ -267,15 +272,46 @@ func c18Templates(r *core.Rand) (map[string]string, bool) {
 	return srcs, true
 }
 
+// c18WithSpare rebuilds decoded JSON data so that every list has spare capacity holding sentinels (an append into a caller's
+// backing array then shows up in the snapshot).
+func c18WithSpare(v interface{}) interface{} {
+	switch x := v.(type) {
+	case map[string]interface{}:
+		m := make(map[string]interface{}, len(x))
+		for k, e := range x {
+			m[k] = c18WithSpare(e)
+		}
+		return m
+	case []interface{}:
+		out := make([]interface{}, len(x))
+		for i := range x {
+			out[i] = c18WithSpare(x[i])
+		}
+		return c18Spare(out...)
+	}
+	return v
+}
+
 func (p *c18) Run(rec *core.Recorder, seed uint64, idx int, tier string) {
 	r := core.NewRand("C18", seed, idx)
 	srcs, nontrivial := c18Templates(r)
 	variant := r.Intn(3)
-	rec.Eval("case", canonSrcs(srcs)+fmt.Sprint(variant), nontrivial)
-	cs := map[string]any{"templates": srcs, "context_variant": variant}
-	ctx := c18Ctx(variant)
+	main := "main"
+	mkCtx := func() map[string]interface{} { return c18Ctx(variant) }
+	class := "case"
+	if idx%8 == 7 {
+		// an entry of the independently written corpus with its own context
+		if we, ok := wildPick(r); ok {
+			srcs, main, nontrivial, class = we.Srcs(), we.Render, true, "wild"
+			mkCtx = func() map[string]interface{} { return c18WithSpare(we.Ctx(nil)).(map[string]interface{}) }
+			rec.Count("wild-entries", 1)
+		}
+	}
+	rec.Eval(class, canonSrcs(srcs)+fmt.Sprint(variant), nontrivial)
+	cs := map[string]any{"templates": srcs, "context_variant": variant, "render": main}
+	ctx := mkCtx()
 	before := c18Snapshot(ctx)
-	res1 := renderFresh(srcs, "main", ctx, nil)
+	res1 := renderFresh(srcs, main, ctx, nil)
 	after := c18Snapshot(ctx)
 	rec.Count("snapshots-compared", 1)
 	if res1.Panicked {
@@ -285,7 +321,7 @@ func (p *c18) Run(rec *core.Recorder, seed uint64, idx int, tier string) {
 	for _, k := range sortedKeys(before) {
 		if before[k] != after[k] {
 			rec.Violate("snapshot-diff", "caller-data-modified:"+k,
-				fmt.Sprintf("rendering %s changed the caller's %q: before %s after %s", core.Q(srcs["main"]), k, core.Trunc(before[k], 300), core.Trunc(after[k], 300)), cs, "")
+				fmt.Sprintf("rendering %s changed the caller's %q: before %s after %s", core.Q(core.Trunc(srcs[main], 300)), k, core.Trunc(before[k], 300), core.Trunc(after[k], 300)), cs, "")
 			return
 		}
 	}
@@ -294,12 +330,12 @@ func (p *c18) Run(rec *core.Recorder, seed uint64, idx int, tier string) {
 		return
 	}
 	// second render on the same data vs a pristine copy
-	res2 := renderFresh(srcs, "main", ctx, nil)
-	res3 := renderFresh(srcs, "main", c18Ctx(variant), nil)
+	res2 := renderFresh(srcs, main, ctx, nil)
+	res3 := renderFresh(srcs, main, mkCtx(), nil)
 	rec.Count("second-render-checks", 1)
 	if res1.ErrStr() != res2.ErrStr() || res1.Out != res2.Out || res3.Out != res1.Out {
 		rec.Violate("second-render", core.SigHash("c18-second", canonSrcs(srcs)),
-			fmt.Sprintf("renders sharing context data influence each other: first %s / second %s / pristine copy %s; template %s", core.Q(core.Trunc(res1.Out, 150)), core.Q(core.Trunc(res2.Out, 150)), core.Q(core.Trunc(res3.Out, 150)), core.Q(srcs["main"])), cs, "")
+			fmt.Sprintf("renders sharing context data influence each other: first %s / second %s / pristine copy %s; template %s", core.Q(core.Trunc(res1.Out, 150)), core.Q(core.Trunc(res2.Out, 150)), core.Q(core.Trunc(res3.Out, 150)), core.Q(core.Trunc(srcs[main], 300))), cs, "")
 		return
 	}
 	// a set value printed before and after other filters were applied to it
@@ -312,7 +348,7 @@ func (p *c18) Run(rec *core.Recorder, seed uint64, idx int, tier string) {
 	}
 	if idx%8 == 0 {
 		// concurrent renders on shared data (meaningful in the -race build; harmless otherwise)
-		shared := c18Ctx(variant)
+		shared := mkCtx()
 		var wg sync.WaitGroup
 		for g := 0; g < 2; g++ {
 			wg.Add(1)
@@ -324,7 +360,11 @@ func (p *c18) Run(rec *core.Recorder, seed uint64, idx int, tier string) {
 					if i > 0 {
 						s2, _ = c18Templates(rr)
 					}
-					renderFresh(s2, "main", shared, nil)
+					m2 := "main"
+					if i == 0 {
+						m2 = main
+					}
+					renderFresh(s2, m2, shared, nil)
 				}
 			}(g)
 		}
